@@ -14,6 +14,12 @@ type nat =
 | O
 | S of nat
 
+(** val option_map : ('a1 -> 'a2) -> 'a1 option -> 'a2 option **)
+
+let option_map f = function
+| Some a -> Some (f a)
+| None -> None
+
 type ('a, 'b) sum =
 | Inl of 'a
 | Inr of 'b
@@ -888,6 +894,11 @@ let rec skipn n0 l =
 let rec seq start = function
 | O -> []
 | S len0 -> start :: (seq (S start) len0)
+
+(** val list_sum : nat list -> nat **)
+
+let list_sum l =
+  fold_right add O l
 
 type ascii =
 | Ascii of bool * bool * bool * bool * bool * bool * bool * bool
@@ -4884,6 +4895,661 @@ let mov_unsafe_ok w i code =
       (code_eqb code ((MAddRbp
         (Z.mul (Z.div w (Zpos (XO (XO (XO XH))))) d)) :: []))
   | _ -> false
+
+(** val acell0 : z -> z **)
+
+let acell0 k =
+  Z.mul (Zpos (XI (XO XH))) k
+
+(** val axi : z -> z **)
+
+let axi k =
+  Z.add (Z.mul (Zpos (XI (XO XH))) k) (Zpos XH)
+
+(** val axb : z -> z **)
+
+let axb k =
+  Z.add (Z.mul (Zpos (XI (XO XH))) k) (Zpos (XO XH))
+
+(** val atmp : z -> z **)
+
+let atmp t0 =
+  Z.add (Z.mul (Zpos (XI (XO XH))) t0) (Zpos (XI XH))
+
+(** val ainp : z -> z **)
+
+let ainp j =
+  Z.add (Z.mul (Zpos (XI (XO XH))) j) (Zpos (XO (XO XH)))
+
+type amap1 = (z * expr) list
+
+(** val look : z -> amap1 -> expr option **)
+
+let rec look k = function
+| [] -> None
+| p :: m' -> let (k', v) = p in if Z.eqb k' k then Some v else look k m'
+
+(** val memz : z -> z list -> bool **)
+
+let rec memz k = function
+| [] -> false
+| x :: l' -> (||) (Z.eqb x k) (memz k l')
+
+type sst1 = { s_ci : amap1; s_cb : amap1; s_d : z list; s_t : amap1;
+              s_nz : expr list; s_n : z }
+
+(** val cell_i : sst1 -> z -> expr **)
+
+let cell_i st k =
+  match look k st.s_ci with
+  | Some p -> p
+  | None -> if memz k st.s_d then e_var (axi k) else e_var (acell0 k)
+
+(** val cell_b : sst1 -> z -> expr **)
+
+let cell_b st k =
+  match look k st.s_cb with
+  | Some p -> p
+  | None -> if memz k st.s_d then e_var (axb k) else e_var (acell0 k)
+
+(** val set_ci : sst1 -> amap1 -> sst1 **)
+
+let set_ci st m =
+  { s_ci = m; s_cb = st.s_cb; s_d = st.s_d; s_t = st.s_t; s_nz = st.s_nz;
+    s_n = st.s_n }
+
+(** val set_cb : sst1 -> amap1 -> sst1 **)
+
+let set_cb st m =
+  { s_ci = st.s_ci; s_cb = m; s_d = st.s_d; s_t = st.s_t; s_nz = st.s_nz;
+    s_n = st.s_n }
+
+(** val set_t : sst1 -> amap1 -> sst1 **)
+
+let set_t st m =
+  { s_ci = st.s_ci; s_cb = st.s_cb; s_d = st.s_d; s_t = m; s_nz = st.s_nz;
+    s_n = st.s_n }
+
+(** val set_n : sst1 -> z -> sst1 **)
+
+let set_n st n0 =
+  { s_ci = st.s_ci; s_cb = st.s_cb; s_d = st.s_d; s_t = st.s_t; s_nz =
+    st.s_nz; s_n = n0 }
+
+(** val add_nz : sst1 -> expr -> sst1 **)
+
+let add_nz st p =
+  { s_ci = st.s_ci; s_cb = st.s_cb; s_d = st.s_d; s_t = st.s_t; s_nz =
+    (p :: st.s_nz); s_n = st.s_n }
+
+(** val pcanon : z -> expr -> expr **)
+
+let pcanon w e =
+  amap_parts
+    (fold_left (fun m p -> acc_add w (sort_z (snd p)) (fst p) m) e [])
+
+(** val tv_same : z -> expr -> expr -> bool **)
+
+let tv_same w a b =
+  part_eqb (pcanon w a) (pcanon w b)
+
+(** val psubst : z -> (z -> expr) -> expr -> expr **)
+
+let psubst w f e =
+  fold_right (fun p acc ->
+    e_add w (fold_right (fun v m -> e_mul w (f v) m) (e_val (fst p)) (snd p))
+      acc) [] e
+
+type sev =
+| SOut of expr
+| SIn
+
+(** val is_simple : instr -> bool **)
+
+let is_simple = function
+| ILoop (_, _, _, _) -> false
+| IIf (_, _, _) -> false
+| _ -> true
+
+(** val split_simple : instr list -> instr list * instr list **)
+
+let rec split_simple l = match l with
+| [] -> ([], [])
+| i :: l' ->
+  if is_simple i
+  then let (a, b) = split_simple l' in ((i :: a), b)
+  else ([], l)
+
+(** val sym_ir_step : z -> sst1 -> instr -> sst1 * sev list **)
+
+let sym_ir_step w st = function
+| IOut src -> (st, ((SOut (cell_i st src)) :: []))
+| IIn dst ->
+  ((set_n (set_ci st ((dst, (e_var (ainp st.s_n))) :: st.s_ci))
+     (Z.add st.s_n (Zpos XH))), (SIn :: []))
+| ICalc calcs ->
+  let vals = map (fun ce -> ((fst ce), (psubst w (cell_i st) (snd ce)))) calcs
+  in
+  ((set_ci st (fold_left (fun m kv -> kv :: m) vals st.s_ci)), [])
+| _ -> (st, [])
+
+(** val sym_ir : z -> instr list -> sst1 -> sst1 * sev list **)
+
+let rec sym_ir w l st =
+  match l with
+  | [] -> (st, [])
+  | i :: l' ->
+    let (st1, e1) = sym_ir_step w st i in
+    let (st2, e2) = sym_ir w l' st1 in (st2, (app e1 e2))
+
+(** val is_arith : binstr -> bool **)
+
+let is_arith = function
+| Scan (_, _) -> false
+| MovP _ -> false
+| BrZ (_, _) -> false
+| BrNZ (_, _) -> false
+| _ -> true
+
+(** val imm_ok : z -> z -> bool **)
+
+let imm_ok w c =
+  (&&) (Z.leb Z0 c) (Z.ltb c (Z.pow (Zpos (XO XH)) w))
+
+(** val sym_read : z -> sst1 -> loc -> (expr * sst1) option **)
+
+let sym_read w st = function
+| Mem k -> Some ((cell_b st k), st)
+| MemZero k -> Some ((cell_b st k), (set_cb st ((k, []) :: st.s_cb)))
+| Tmp t0 -> (match look t0 st.s_t with
+             | Some p -> Some (p, st)
+             | None -> None)
+| Imm c -> if imm_ok w c then Some ((e_val c), st) else None
+
+(** val sym_write : sst1 -> loc -> expr -> sst1 **)
+
+let sym_write st l v =
+  match l with
+  | Mem k -> set_cb st ((k, v) :: st.s_cb)
+  | MemZero k -> set_cb st ((k, v) :: st.s_cb)
+  | Tmp t0 -> set_t st ((t0, v) :: st.s_t)
+  | Imm _ -> st
+
+(** val sym_binop :
+    z -> (expr -> expr -> expr) -> sst1 -> loc -> loc -> loc -> sst1 option **)
+
+let sym_binop w f st d a b =
+  if loc_eqb d a
+  then (match sym_read w st b with
+        | Some p ->
+          let (vb0, s1) = p in
+          (match sym_read w s1 a with
+           | Some p0 ->
+             let (va0, s2) = p0 in Some (sym_write s2 d (f va0 vb0))
+           | None -> None)
+        | None -> None)
+  else (match sym_read w st a with
+        | Some p ->
+          let (va0, s1) = p in
+          (match sym_read w s1 b with
+           | Some p0 ->
+             let (vb0, s2) = p0 in Some (sym_write s2 d (f va0 vb0))
+           | None -> None)
+        | None -> None)
+
+(** val sym_bc_step : z -> sst1 -> binstr -> (sst1 * sev list) option **)
+
+let sym_bc_step w st = function
+| Noop -> Some (st, [])
+| Inp dst ->
+  Some
+    ((set_n (set_cb st ((dst, (e_var (ainp st.s_n))) :: st.s_cb))
+       (Z.add st.s_n (Zpos XH))), (SIn :: []))
+| Outp src -> Some (st, ((SOut (cell_b st src)) :: []))
+| Add (d, a, b) ->
+  option_map (fun s -> (s, [])) (sym_binop w (e_add w) st d a b)
+| Sub (d, a, b) ->
+  option_map (fun s -> (s, []))
+    (sym_binop w (fun x y -> e_add w x (e_neg w y)) st d a b)
+| Mul (d, a, b) ->
+  option_map (fun s -> (s, [])) (sym_binop w (e_mul w) st d a b)
+| Copy (d, a) ->
+  (match sym_read w st a with
+   | Some p -> let (v, s1) = p in Some ((sym_write s1 d v), [])
+   | None -> None)
+| _ -> None
+
+(** val sym_bc : z -> binstr list -> sst1 -> (sst1 * sev list) option **)
+
+let rec sym_bc w l st =
+  match l with
+  | [] -> Some (st, [])
+  | i :: l' ->
+    (match sym_bc_step w st i with
+     | Some p ->
+       let (st1, e1) = p in
+       (match sym_bc w l' st1 with
+        | Some p0 -> let (st2, e2) = p0 in Some (st2, (app e1 e2))
+        | None -> None)
+     | None -> None)
+
+(** val ev_eq : z -> sev list -> sev list -> bool **)
+
+let rec ev_eq w a b =
+  match a with
+  | [] -> (match b with
+           | [] -> true
+           | _ :: _ -> false)
+  | s :: a' ->
+    (match s with
+     | SOut p ->
+       (match b with
+        | [] -> false
+        | s0 :: b' ->
+          (match s0 with
+           | SOut q -> (&&) (tv_same w p q) (ev_eq w a' b')
+           | SIn -> false))
+     | SIn ->
+       (match b with
+        | [] -> false
+        | s0 :: b' -> (match s0 with
+                       | SOut _ -> false
+                       | SIn -> ev_eq w a' b')))
+
+(** val sym_region : z -> instr list -> binstr list -> sst1 -> sst1 option **)
+
+let sym_region w pre seg st =
+  let (sti, evi) = sym_ir w pre st in
+  (match sym_bc w seg st with
+   | Some p ->
+     let (stb, evb) = p in
+     if (&&) (ev_eq w evi evb) (Z.eqb sti.s_n stb.s_n)
+     then Some { s_ci = sti.s_ci; s_cb = stb.s_cb; s_d = st.s_d; s_t =
+            stb.s_t; s_nz = st.s_nz; s_n = sti.s_n }
+     else None
+   | None -> None)
+
+(** val code_at : binstr list -> z -> binstr option **)
+
+let code_at code pc =
+  if Z.ltb pc Z0 then None else nth_error code (Z.to_nat pc)
+
+(** val at_head : z option -> z -> bool **)
+
+let at_head head pc =
+  match head with
+  | Some h -> Z.eqb h pc
+  | None -> false
+
+(** val seg_from : binstr list -> z -> z -> z option -> binstr list **)
+
+let rec seg_from l pc stop head =
+  match l with
+  | [] -> []
+  | i :: l' ->
+    if (&&) ((&&) (Z.ltb pc stop) (is_arith i)) (negb (at_head head pc))
+    then i :: (seg_from l' (Z.add pc (Zpos XH)) stop head)
+    else []
+
+(** val bc_segment : binstr list -> z -> z -> z option -> binstr list **)
+
+let bc_segment code pc stop head =
+  if Z.ltb pc Z0 then [] else seg_from (skipn (Z.to_nat pc) code) pc stop head
+
+type facts = { f_c : amap1; f_d : z list; f_t : amap1; f_nz : expr list }
+
+type cert =
+| CLoop of z * z * facts
+| CIf of facts
+
+(** val st_of_facts : facts -> sst1 **)
+
+let st_of_facts f =
+  { s_ci = f.f_c; s_cb = f.f_c; s_d = f.f_d; s_t = f.f_t; s_nz = f.f_nz;
+    s_n = Z0 }
+
+(** val agree : z -> sst1 -> z -> bool **)
+
+let agree w st k =
+  tv_same w (cell_i st k) (cell_b st k)
+
+(** val keys : sst1 -> z list **)
+
+let keys st =
+  app (map fst st.s_ci) (app (map fst st.s_cb) st.s_d)
+
+(** val atom_ok : z -> sst1 -> z -> bool **)
+
+let atom_ok w st a =
+  let m = Z.modulo a (Zpos (XI (XO XH))) in
+  if Z.eqb m Z0
+  then agree w st (Z.div a (Zpos (XI (XO XH))))
+  else if Z.eqb m (Zpos XH)
+       then true
+       else if Z.eqb m (Zpos (XO XH))
+            then true
+            else if Z.eqb m (Zpos (XI XH))
+                 then (match look (Z.div a (Zpos (XI (XO XH)))) st.s_t with
+                       | Some _ -> true
+                       | None -> false)
+                 else false
+
+(** val atom_val : sst1 -> z -> expr **)
+
+let atom_val st a =
+  let m = Z.modulo a (Zpos (XI (XO XH))) in
+  if Z.eqb m Z0
+  then cell_b st (Z.div a (Zpos (XI (XO XH))))
+  else if Z.eqb m (Zpos XH)
+       then cell_i st (Z.div a (Zpos (XI (XO XH))))
+       else if Z.eqb m (Zpos (XO XH))
+            then cell_b st (Z.div a (Zpos (XI (XO XH))))
+            else (match look (Z.div a (Zpos (XI (XO XH)))) st.s_t with
+                  | Some p -> p
+                  | None -> [])
+
+(** val subst_ok : z -> sst1 -> expr -> bool **)
+
+let subst_ok w st q =
+  forallb (atom_ok w st) (e_variables q)
+
+(** val subst_st : z -> sst1 -> expr -> expr **)
+
+let subst_st w st q =
+  psubst w (atom_val st) q
+
+(** val is_nz_const : z -> expr -> bool **)
+
+let is_nz_const w = function
+| [] -> false
+| p0 :: l ->
+  let (c, l0) = p0 in
+  (match l0 with
+   | [] ->
+     (match l with
+      | [] -> negb (Z.eqb (Z.modulo c (Z.pow (Zpos (XO XH)) w)) Z0)
+      | _ :: _ -> false)
+   | _ :: _ -> false)
+
+(** val nonzero_in : z -> sst1 -> expr -> bool **)
+
+let nonzero_in w st p =
+  (||) (is_nz_const w p) (existsb (tv_same w p) st.s_nz)
+
+(** val entails : z -> sst1 -> facts -> bool **)
+
+let entails w st f =
+  (&&)
+    ((&&)
+      ((&&)
+        (forallb (fun k ->
+          negb (match look k f.f_c with
+                | Some _ -> true
+                | None -> false)) f.f_d)
+        (forallb (fun k ->
+          (||) (memz k f.f_d)
+            ((&&) (agree w st k)
+              (match look k f.f_c with
+               | Some q ->
+                 (&&) (subst_ok w st q)
+                   (tv_same w (cell_b st k) (subst_st w st q))
+               | None -> true))) (app (keys st) (map fst f.f_c))))
+      (forallb (fun tq ->
+        match look (fst tq) st.s_t with
+        | Some p ->
+          (&&) (subst_ok w st (snd tq)) (tv_same w p (subst_st w st (snd tq)))
+        | None -> false) f.f_t))
+    (forallb (fun q ->
+      (&&) (subst_ok w st q) (nonzero_in w st (subst_st w st q))) f.f_nz)
+
+(** val is_const : expr -> bool **)
+
+let is_const = function
+| [] -> true
+| p0 :: l ->
+  let (_, l0) = p0 in
+  (match l0 with
+   | [] -> (match l with
+            | [] -> true
+            | _ :: _ -> false)
+   | _ :: _ -> false)
+
+(** val moved : z -> sst1 -> z -> sst1 **)
+
+let moved w st shift =
+  { s_ci = []; s_cb = []; s_d =
+    (map (fun k -> Z.sub k shift)
+      (filter (fun k -> negb (agree w st k)) (keys st))); s_t =
+    (map (fun tp -> ((fst tp),
+      (if is_const (snd tp) then snd tp else e_var (atmp (fst tp))))) st.s_t);
+    s_nz = []; s_n = Z0 }
+
+(** val all_agree : z -> sst1 -> bool **)
+
+let all_agree w st =
+  forallb (agree w st) (keys st)
+
+(** val is_nil : 'a1 list -> bool **)
+
+let is_nil = function
+| [] -> true
+| _ :: _ -> false
+
+(** val next_head : bool -> instr list -> cert list -> z option **)
+
+let next_head fuse rest cs =
+  match rest with
+  | [] -> None
+  | i :: _ ->
+    (match i with
+     | ILoop (_, _, body, once) ->
+       if once
+       then if (&&) fuse (is_nil body)
+            then None
+            else (match cs with
+                  | [] -> None
+                  | c :: _ ->
+                    (match c with
+                     | CLoop (h, _, _) -> Some h
+                     | CIf _ -> None))
+       else None
+     | _ -> None)
+
+(** val after_move :
+    z -> binstr list -> z -> sst1 -> z -> (z * sst1) option **)
+
+let after_move w code pc st shift =
+  if Z.eqb shift Z0
+  then Some (pc, st)
+  else (match code_at code pc with
+        | Some b ->
+          (match b with
+           | MovP sh ->
+             if Z.eqb sh shift
+             then Some ((Z.add pc (Zpos XH)), (moved w st shift))
+             else None
+           | _ -> None)
+        | None -> None)
+
+(** val tv_block :
+    nat -> z -> bool -> binstr list -> instr list -> z -> z -> sst1 -> cert
+    list -> ((z * sst1) * cert list) option **)
+
+let rec tv_block fuel w fuse code insts pc stop st cs =
+  match fuel with
+  | O -> None
+  | S fuel' ->
+    let (pre, rest) = split_simple insts in
+    let seg = bc_segment code pc stop (next_head fuse rest cs) in
+    (match sym_region w pre seg st with
+     | Some st1 ->
+       let pc1 = Z.add pc (Z.of_nat (length seg)) in
+       (match rest with
+        | [] -> Some ((pc1, st1), cs)
+        | i :: rest' ->
+          (match i with
+           | ILoop (cond, shift, body, once) ->
+             (match code_at code pc1 with
+              | Some b ->
+                if (&&) fuse (is_nil body)
+                then (match b with
+                      | Scan (c, sh) ->
+                        if (&&)
+                             ((&&)
+                               ((&&) ((&&) (Z.eqb c cond) (Z.eqb sh shift))
+                                 (Z.ltb pc1 stop)) (agree w st1 cond))
+                             ((||) (Z.eqb shift Z0) (all_agree w st1))
+                        then tv_block fuel' w fuse code rest'
+                               (Z.add pc1 (Zpos XH)) stop
+                               (if Z.eqb shift Z0
+                                then st1
+                                else moved w st1 shift) cs
+                        else None
+                      | _ -> None)
+                else (match cs with
+                      | [] -> None
+                      | c :: cs1 ->
+                        (match c with
+                         | CLoop (head, back, inv) ->
+                           let fi = st_of_facts inv in
+                           let entry_ok =
+                             if once
+                             then (&&) (nonzero_in w st1 (cell_i st1 cond))
+                                    (Z.eqb pc1 head)
+                             else (&&)
+                                    ((&&) (agree w st1 cond)
+                                      (Z.eqb head (Z.add pc1 (Zpos XH))))
+                                    (match b with
+                                     | BrZ (c0, off) ->
+                                       (&&) (Z.eqb c0 cond)
+                                         (Z.eqb (Z.add pc1 off)
+                                           (Z.add back (Zpos XH)))
+                                     | _ -> false)
+                           in
+                           let back_ok =
+                             match code_at code back with
+                             | Some b0 ->
+                               (match b0 with
+                                | BrNZ (c0, off) ->
+                                  (&&) (Z.eqb c0 cond)
+                                    (Z.eqb (Z.add back off) head)
+                                | _ -> false)
+                             | None -> false
+                           in
+                           if (&&)
+                                ((&&)
+                                  ((&&)
+                                    ((&&) ((&&) entry_ok back_ok)
+                                      (Z.leb (Z.add back (Zpos XH)) stop))
+                                    (Z.leb head back)) (Z.leb Z0 pc1))
+                                (entails w st1 inv)
+                           then let ent =
+                                  add_nz fi
+                                    (e_var
+                                      (if memz cond inv.f_d
+                                       then axi cond
+                                       else acell0 cond))
+                                in
+                                (match tv_block fuel' w fuse code body head
+                                         back ent cs1 with
+                                 | Some p ->
+                                   let (p0, cs2) = p in
+                                   let (pc2, stb) = p0 in
+                                   (match after_move w code pc2 stb shift with
+                                    | Some p1 ->
+                                      let (pc3, stb') = p1 in
+                                      if (&&)
+                                           ((&&) (Z.eqb pc3 back)
+                                             (agree w stb' cond))
+                                           (entails w stb' inv)
+                                      then tv_block fuel' w fuse code rest'
+                                             (Z.add back (Zpos XH)) stop
+                                             (if once then stb' else fi) cs2
+                                      else None
+                                    | None -> None)
+                                 | None -> None)
+                           else None
+                         | CIf _ -> None))
+              | None -> None)
+           | IIf (cond, shift, body) ->
+             (match code_at code pc1 with
+              | Some b ->
+                (match b with
+                 | BrZ (c, off) ->
+                   (match cs with
+                    | [] -> None
+                    | c0 :: cs1 ->
+                      (match c0 with
+                       | CLoop (_, _, _) -> None
+                       | CIf join ->
+                         let exit = Z.add pc1 off in
+                         if (&&)
+                              ((&&)
+                                ((&&)
+                                  ((&&) (Z.eqb c cond) (agree w st1 cond))
+                                  (Z.leb (Z.add pc1 (Zpos XH)) exit))
+                                (Z.leb exit stop)) (Z.leb Z0 pc1)
+                         then (match tv_block fuel' w fuse code body
+                                       (Z.add pc1 (Zpos XH)) exit
+                                       (add_nz st1 (cell_b st1 cond)) cs1 with
+                               | Some p ->
+                                 let (p0, cs2) = p in
+                                 let (pc2, stb) = p0 in
+                                 (match after_move w code pc2 stb shift with
+                                  | Some p1 ->
+                                    let (pc3, stb') = p1 in
+                                    if (&&)
+                                         ((&&) (Z.eqb pc3 exit)
+                                           (entails w st1 join))
+                                         (entails w stb' join)
+                                    then tv_block fuel' w fuse code rest'
+                                           exit stop (st_of_facts join) cs2
+                                    else None
+                                  | None -> None)
+                               | None -> None)
+                         else None))
+                 | _ -> None)
+              | None -> None)
+           | _ -> None))
+     | None -> None)
+
+(** val st0 : sst1 **)
+
+let st0 =
+  { s_ci = []; s_cb = []; s_d = []; s_t = []; s_nz = []; s_n = Z0 }
+
+(** val tvsize : instr -> nat **)
+
+let rec tvsize = function
+| ILoop (_, _, body, _) -> S (list_sum (map tvsize body))
+| IIf (_, _, body) -> S (list_sum (map tvsize body))
+| _ -> S O
+
+(** val isize : instr list -> nat **)
+
+let isize l =
+  S (list_sum (map tvsize l))
+
+(** val tv_check : z -> bool -> block -> binstr list -> cert list -> bool **)
+
+let tv_check w fuse ir code cs =
+  (&&) (Z.leb Z0 w)
+    (match tv_block (S (isize (snd ir))) w fuse code (snd ir) Z0
+             (Z.of_nat (length code)) st0 cs with
+     | Some p ->
+       let (p0, l) = p in
+       let (pc, _) = p0 in
+       (match l with
+        | [] ->
+          (||) (Z.eqb pc (Z.of_nat (length code)))
+            ((&&) (Z.eqb (Z.add pc (Zpos XH)) (Z.of_nat (length code)))
+              (match code_at code pc with
+               | Some b -> (match b with
+                            | MovP _ -> true
+                            | _ -> false)
+               | None -> false))
+        | _ :: _ -> false)
+     | None -> false)
 
 type kind =
 | KPrintIr
